@@ -194,6 +194,7 @@ def replay_once(harness, choices, keep_events=True):
 
 # ---- multi-process driver ---------------------------------------------------------
 import importlib
+import os
 
 
 def _mk(module, name, params):
@@ -226,6 +227,8 @@ def explore_all(ctx, module, configs, *, pre_bound, dev_bound=0, split=0,
                 max_execs=None, time_limit=None, hb_cache=False):
   """configs: list of (harness_name, params dict).  Explores every config
   completely within the bounds, using all cores."""
+  if time_limit is None and os.environ.get('VERIF_UNIT_TIME_LIMIT'):
+    time_limit = float(os.environ['VERIF_UNIT_TIME_LIMIT'])
   limits = {'max_execs': max_execs, 'time_limit': time_limit,
             'hb_cache': hb_cache}
   bounds = (pre_bound, dev_bound)
